@@ -45,6 +45,7 @@ type UnitSpec struct {
 	Package string            `json:"package"`
 	Harness []string          `json:"harness"`
 	Stubs   map[string]string `json:"stubs"`
+	Extra   map[string]string `json:"extra_overlay"` // repo-relative virtual path -> file under /verif
 	Entries []EntrySpec       `json:"entries"`
 }
 
@@ -195,6 +196,9 @@ func (c *checker) runUnit(ui int, u UnitSpec) {
 	harness := map[string]string{}
 	for _, h := range u.Harness {
 		harness[filepath.Base(h)] = filepath.Join(c.verif, h)
+	}
+	for virt, real := range u.Extra {
+		harness["/"+virt] = filepath.Join(c.verif, real)
 	}
 	// refuse harness files without the verif build tag
 	for _, real := range harness {
@@ -491,6 +495,17 @@ func (c *checker) writeReplayDir(p *Program, u UnitSpec, dir string, entries []s
 			return "", err
 		}
 		overlay[filepath.Join(pkgDir, filepath.Base(h))] = dst
+	}
+	for virt, real := range u.Extra {
+		b, err := os.ReadFile(filepath.Join(c.verif, real))
+		if err != nil {
+			return "", err
+		}
+		dst := filepath.Join(dir, "extra_"+filepath.Base(real))
+		if err := os.WriteFile(dst, b, 0o644); err != nil {
+			return "", err
+		}
+		overlay[filepath.Join(c.repo, virt)] = dst
 	}
 	var sb strings.Builder
 	for _, e := range entries {
